@@ -574,6 +574,18 @@ func init() {
 			e.guards[field] = guardInfo{lock: lock, name: a[2].(StringV).s}
 			return nil
 		},
+		// vWorkBegin(k, msg) .. vWorkEnd(): the section may execute at most k interpreted
+		// instructions; more is a violation of kind "work" (native confirmation: the section
+		// takes longer than k x 10 ns on the wall clock)
+		hname("vWorkBegin"): func(e *Engine, fn *ssa.Function, a []Value) Value {
+			e.workLimit = e.steps + int64(e.concreteInt(a[0], "vWorkBegin"))
+			e.workMsg = a[1].(StringV).s
+			return nil
+		},
+		hname("vWorkEnd"): func(e *Engine, fn *ssa.Function, a []Value) Value {
+			e.workLimit = 0
+			return nil
+		},
 		// vSleep(d): time passes (concrete clock only); natively a real sleep
 		hname("vSleep"): func(e *Engine, fn *ssa.Function, a []Value) Value {
 			d := a[0].(*Term)
@@ -596,6 +608,7 @@ func init() {
 		},
 		hname("vMustNotBlock"): func(e *Engine, fn *ssa.Function, a []Value) Value {
 			e.noBlockMsg = a[0].(StringV).s
+			e.sectionStart = e.steps
 			return nil
 		},
 		hname("vMayBlock"): func(e *Engine, fn *ssa.Function, a []Value) Value {
